@@ -101,3 +101,9 @@ func (vs *VerifC14Server) EncodedSize() (n int) {
 func (vs *VerifC14Server) Store() {
 	vs.srv.onNotify(LeaseChangedDBStore)
 }
+
+// StoreErr is dbStore itself, which onNotify(LeaseChangedDBStore) calls and
+// whose error it only logs.
+func (vs *VerifC14Server) StoreErr() (err error) {
+	return vs.srv.dbStore()
+}
